@@ -14,6 +14,7 @@ func main() {
 		vlib.Group{Name: "dgesvd", Gen: genDgesvd},
 		vlib.Group{Name: "dgebrd", Gen: genDgebrd},
 		vlib.Group{Name: "dbdsqr-minwork", Gen: genDbdsqrMinWork},
+		vlib.Group{Name: "dbdsqr-direct", Gen: genDbdsqrDirect},
 		vlib.Group{Name: "dgehrd", Gen: genDgehrd},
 		vlib.Group{Name: "dhseqr", Gen: genDhseqr},
 		vlib.Group{Name: "dgeev", Gen: genDgeev},
